@@ -1,8 +1,10 @@
 #!/bin/bash
-# runs every claimed check at the given tier (default quick), one line per property
+# runs every claimed check at the given tier (default quick), one line per property; optional list of ids
 cd /verif
-tier=${1:-quick}
-for p in $(python3 -c "import json;print(' '.join(c['property_id'] for c in json.load(open('MANIFEST.json'))['checks']))"); do
+tier=${1:-quick}; shift
+ids="$@"
+[ -z "$ids" ] && ids=$(python3 -c "import json;print(' '.join(c['property_id'] for c in json.load(open('MANIFEST.json'))['checks']))")
+for p in $ids; do
   s=$(date +%s)
   out=$(./check $p --tier $tier 2>&1 | grep -E "^(OK|VIOLATION|KNOWN-FINDING|CHECK-ERROR)" | head -3 | tr '\n' '|')
   echo "$p $(( $(date +%s) - s ))s $out"
